@@ -2887,7 +2887,8 @@ start:
       _sblk_release(lx, &lx->lower);
     }
     lx->dblk.addr = 0; // always search from the current state of the database head
-    const off_t cnaddr = cur->cn ? cur->cn->addr : 0;
+    const bool had_cn = cur->cn != 0;
+    const off_t cnaddr = had_cn ? cur->cn->addr : 0; // zero: the copy of the database tail (cursor behind the last record)
     rc = _cursor_get_ge_idx(lx, op, &cur->cnpos);
     if (lx->upper) {
       _sblk_release(lx, &lx->upper);
@@ -2895,7 +2896,7 @@ start:
     if (!rc) {
       cur->cn = lx->lower;
       lx->lower = 0;
-    } else if ((rc == IWKV_ERROR_NOTFOUND) && cnaddr) {
+    } else if ((rc == IWKV_ERROR_NOTFOUND) && had_cn) {
       // The cursor stays where it was, but the search took its blocks from the same allocation ring (lx->saa) the
       // cursor's node copy lives in and may have reused that slot: take a fresh copy of the node.
       IWRC(_sblk_at(lx, cnaddr, 0, &cur->cn), rc);
